@@ -29,7 +29,38 @@ X10_RELEASE = ESC + b"[M#!!"
 # with the command word that then carries the intermediate.  No terminal sends such a key; the property trusts
 # the tokenizer, so the generators keep the byte stream of every tokenizer lifetime free of that shape
 # (conservatively: any CSI body containing such a byte).
-TERMKEY_CRASH = re.compile(rb"(?:\x1b\[|\x9b)[^\x40-\x7f]*[\x20-\x2f][^\x40-\x7f]*[ABCDEFHPQRSZ]", re.S)
+# With the installed terminfo entry (kmous = CSI <) libtermkey reads `CSI <` + 3 raw bytes as an X10 report, and its
+# two drivers disagree while those bytes are incomplete: the terminfo driver says AGAIN, the CSI driver already sees
+# a complete sequence if one of the bytes is a final byte (0x40..0x7f) and wins.  So `CSI < Z c f` is one mouse report
+# when pushed whole and an unknown CSI plus text when cut after the Z: the tokenizer itself is not Incremental there.
+# No SGR report has a final byte among its first three parameter bytes; the generators keep to that.
+KMOUS_AMBIGUOUS = re.compile(rb"\x1b\[<[^\x40-\x7f]{0,2}[\x40-\x7f]", re.S)
+
+# Over-approximation (on the raw bytes, whatever the alignment of the tokenizer) of "contains a mouse report that
+# libtermkey classifies as UNKNOWN" — the trigger of the second known finding; used to keep the main section free
+# of it.  X10 form: the byte after `CSI M` (and after `CSI <` when terminfo says kmous = CSI <); numeric forms:
+# the first parameter of `CSI [<] n ; … M|m`.
+X10_CODE = re.compile(rb"(?:\x1b\[|\x9b)(?:(?![^\x40-\x7f]*;[^\x40-\x7f]*;)[^\x40-\x7f]*M|<)(.)", re.S)
+NUM_CODE = re.compile(rb"(?:\x1b\[|\x9b)<?(\d*);[^\x40-\x7f]*[Mm]", re.S)
+def known_code(c):
+    return (c & 0xc3) in (0, 1, 2, 3, 64, 65)
+def has_unknown_mouse(b):
+    for m in X10_CODE.finditer(b):
+        if not known_code((m.group(1)[0] - 0x20) & 0xff):
+            return True
+    for m in NUM_CODE.finditer(b):
+        if not m.group(1) or not known_code(int(m.group(1)) & 0xff):
+            return True
+    return False
+
+# It also reads uninitialised parameters — different TermKey instances then decode the same bytes differently — for
+# `CSI ~` / `CSI u` without a numeric parameter and for CSI bodies that contain anything but parameter bytes
+# (0x30..0x3f): C0 controls, bytes >= 0x80, intermediates.  The only such sequence a terminal sends is the DECRPM
+# reply `CSI ? Pn ; Pn $ y`.  Same treatment: every CSI in a generated stream has a body of parameter bytes only.
+TERMKEY_CRASH = re.compile(rb"(?:\x1b\[|\x9b)(?:[\x30-\x3f]*(?!\$y)[^\x30-\x7f]|[^\x30-\x39\x40-\x7f]*[~u])", re.S)
+# what every tokenizer lifetime ends with: a final byte that completes whatever CSI is pending, then an X10
+# release of all buttons, which reveals the held-button mask
+TAIL = b"@" + X10_RELEASE
 
 
 def utf8(cp):
@@ -90,8 +121,6 @@ def a_alt():
 # the repairs both sections are ordinary input.
 TRIGGERS = False
 BUTTON_CODES_ALL = [0, 1, 2, 3, 32, 33, 34, 35, 64, 65, 66, 67, 96, 97, 98, 128, 129, 130, 131, 160, 192, 255, 36, 68]
-def known_code(c):
-    return (c & 0xc3) in (0, 1, 2, 3, 64, 65)
 BUTTON_CODES_KNOWN = [c for c in BUTTON_CODES_ALL if known_code(c)]
 POSITIONS = [1, 1, 2, 3, 10, 80, 94, 95, 96, 127, 128, 200, 222, 223, 224, 255, 256, 1000, 2047, 2048, 4095, 4096, 0]
 
@@ -234,7 +263,7 @@ def op_push(b, cuts):
 
 lines = []
 nhist = 0
-BUDGET = 256 - len(X10_RELEASE) - 2
+BUDGET = 256 - len(TAIL) - 2
 
 def begin(utf8flag, usec0, kmous):
     global nhist
@@ -255,14 +284,24 @@ def random_history(triggers):
     # refused whatever is pending (the short count of termkey_push_bytes is the first known finding)
     budget = [BUDGET]
     sofar = [b""]
-    def fit(b):
-        if not triggers:
-            b = b[:budget[0]]
-        if TERMKEY_CRASH.search(sofar[0] + b + X10_RELEASE):
-            dist["avoided:termkey_crash_shape"] += 1
-            b = bytes(c for c in b if not 0x20 <= c <= 0x2f)
-            if TERMKEY_CRASH.search(sofar[0] + b + X10_RELEASE):
-                b = b"a"
+    def fit(gen):
+        """a piece from gen() that keeps this tokenizer lifetime inside the budget (main section) and free of the
+        shapes libtermkey mishandles (both sections) and of the known-finding triggers (main section)"""
+        for attempt in range(12):
+            b = gen() if attempt < 11 else b"a"
+            if not triggers:
+                b = b[:budget[0]]
+            whole = sofar[0] + b + TAIL
+            if TERMKEY_CRASH.search(whole):
+                dist["avoided:termkey_crash_shape"] += 1
+                continue
+            if not kmous and KMOUS_AMBIGUOUS.search(whole):
+                dist["avoided:termkey_kmous_ambiguity"] += 1
+                continue
+            if not triggers and has_unknown_mouse(whole):
+                dist["avoided:unknown_mouse_in_main"] += 1
+                continue
+            break
         if not triggers:
             budget[0] -= len(b)
         sofar[0] += b
@@ -279,20 +318,23 @@ def random_history(triggers):
             sofar[0] = b""
         elif r < 0.13 and triggers:
             # longer than libtermkey's buffer (256 bytes)
-            b = stream(rng.randint(30, 60), no_junk=True)
-            while len(b) <= 256:
-                b += stream(8, no_junk=True)
-            b = fit(b)
+            def long_stream():
+                b = stream(rng.randint(30, 60), no_junk=True)
+                while len(b) <= 256:
+                    b += stream(8, no_junk=True)
+                return b
+            b = fit(long_stream)
             lines.append(op_push(b, cuts_for(len(b))))
         elif r < 0.16:
-            b = fit(stream(rng.randint(8, 30), no_junk=rng.random() < 0.7)[:250])
+            b = fit(lambda: stream(rng.randint(8, 30), no_junk=rng.random() < 0.7)[:250])
             lines.append(op_push(b, cuts_for(len(b))))
         else:
-            b = fit(stream(rng.choices([1, 2, 3, 4, 6], [5, 5, 3, 2, 1])[0]))
+            b = fit(lambda: stream(rng.choices([1, 2, 3, 4, 6], [5, 5, 3, 2, 1])[0]))
             lines.append(op_push(b, cuts_for(len(b))))
     # reveal the held-button mask and what is left in the tokenizer
     dist["op:check"] += 1
     lines.append("check 1000")
+    lines.append(op_push(b"@", []))
     lines.append(op_push(X10_RELEASE, []))
 
 
@@ -303,10 +345,16 @@ def all_frags(n):
         yield [c1, c2]
 
 
-def exhaustive_stream(b, utf8flag, kmous, per_hist=12):
+def exhaustive_stream(b, utf8flag, kmous, per_hist=12, allow_unknown=False):
     """every 2- and 3-fragmentation of b, each from a fresh pair of terminals"""
-    if TERMKEY_CRASH.search(b + X10_RELEASE):
+    if TERMKEY_CRASH.search(b + TAIL):
         dist["avoided:termkey_crash_shape"] += 1
+        return
+    if not kmous and KMOUS_AMBIGUOUS.search(b + TAIL):
+        dist["avoided:termkey_kmous_ambiguity"] += 1
+        return
+    if not TRIGGERS and not allow_unknown and has_unknown_mouse(b + TAIL):
+        dist["avoided:unknown_mouse_in_main"] += 1
         return
     combos = list(all_frags(len(b)))
     dist["exhaustive_streams"] += 1
@@ -318,7 +366,7 @@ def exhaustive_stream(b, utf8flag, kmous, per_hist=12):
                 dist["op:reset"] += 1
                 lines.append("reset %d" % utf8flag)
             lines.append(op_push(b, cuts))
-            lines.append(op_push(X10_RELEASE, []))
+            lines.append(op_push(TAIL, []))
 
 
 SMALL_ALPHABET = [
@@ -340,7 +388,7 @@ if a.tier == "exhaustive":
                         continue
                     if n == 3 and rng.random() > 0.04:      # all 1- and 2-atom streams, a sample of the 3-atom ones
                         continue
-                    exhaustive_stream(b, 1, kmous)
+                    exhaustive_stream(b, 1, kmous, allow_unknown=must is not None)
     bound = "every 2- and 3-fragmentation of every stream of 1 or 2 atoms (and a 4% sample of 3 atoms) over %d atoms, <= 24 bytes, kmous in {0,1}" % (len(SMALL_ALPHABET) + len(TRIGGER_ATOMS))
 else:
     nrand = 700 if a.tier == "quick" else 7000
